@@ -76,10 +76,33 @@ def mutate(rng, p, kind):
     return gen_sl.Prog(p.classes, funs, nb)
 
 
+def corpus():
+    """hand-made programs around the repaired defects and the corners of the three disciplines"""
+    S = gen_sl.seq
+    cl = [(1, None), (2, 1)]
+    g = (20, [1], [(21, True)], S([("if", ("var", 21), ("raise", 1), ("skip",))]))          # def f20(v21) raise [E1]
+    handle = ("def", 30, False, ("handle", ("call", 20, ("lit",)), [(1, 31, ("skip",))]))
+    out = []
+    # a bare raising call after / inside the arm of / before a handle for the same class, in a function without raises
+    out.append(gen_sl.Prog(cl, [g, (40, [], [(41, True)], S([handle, ("expr", ("call", 20, ("lit",)))]))], ("skip",)))
+    out.append(gen_sl.Prog(cl, [g, (40, [], [(41, True)], S([("def", 30, False, ("handle", ("call", 20, ("lit",)), [(1, 31, S([("expr", ("call", 20, ("lit",)))]))]))]))], ("skip",)))
+    out.append(gen_sl.Prog(cl, [g, (40, [], [(41, True)], S([("expr", ("call", 20, ("lit",))), handle]))], ("skip",)))
+    out.append(gen_sl.Prog(cl, [g, (40, [], [(41, True)], S([handle, ("raise", 2)]))], ("skip",)))
+    # covered: declared ancestor, handled by ancestor arm, top level
+    out.append(gen_sl.Prog(cl, [g, (40, [1], [(41, True)], S([("expr", ("call", 20, ("lit",))), ("raise", 2)]))], ("skip",)))
+    out.append(gen_sl.Prog(cl, [g], S([("expr", ("call", 20, ("lit",)))])))
+    # fin / shadowing / scoping corners
+    out.append(gen_sl.Prog([], [], S([("def", 50, True, ("lit",)), ("if", ("lit",), S([("def", 50, False, ("lit",)), ("assign", 50, ("lit",))]), ("skip",)), ("assign", 50, ("lit",))])))
+    out.append(gen_sl.Prog([], [], S([("def", 50, False, ("lit",)), ("def", 50, True, ("lit",)), ("assign", 50, ("lit",))])))
+    out.append(gen_sl.Prog([], [], S([("if", ("lit",), S([("def", 51, False, ("lit",))]), S([("def", 51, False, ("lit",))])), ("expr", ("var", 51))])))
+    out.append(gen_sl.Prog([], [], S([("for", 52, ("lit",), S([("def", 53, False, ("var", 52))])), ("expr", ("var", 53))])))
+    return out
+
+
 def run_scope(chk, kinds, relevant, n_base, n_mut):
     """kinds: mutator kinds; relevant: the error class this property is about"""
     rng = chk.rng
-    progs = []
+    progs = [("corpus", p) for p in corpus()]
     for _ in range(n_base):
         base = gen_sl.Gen(rng).program()
         progs.append(("base", base))
